@@ -114,6 +114,47 @@ Theorem C11_retention_hyps : forall K pis, Forall (valid_put K) pis -> Forall (f
 Proof. exact retention_hyps. Qed.
 Print Assumptions C11_retention_hyps.
 
+(* clause (a), metadata.  With several matching series the returned metadata is that of the LAST matching
+   series of the table (key order).  A pass keeps every series' metadata but may drop a series whose data lies
+   entirely before the threshold.  Hence: the metadata after the pass is that of the last matching series that
+   survives (C11_retention_meta); it is unchanged whenever the last matching series is not dropped
+   (C11_retention_meta_same); and "metadata unchanged" in general is false (C11_retention_meta_refuted), although
+   tree and timeline are unchanged (C11_retention_after). *)
+Theorem C11_retention_meta : forall thr sel from until st o', segs_sorted (st_segs st) ->
+  st_get sel from until (st_retention thr st) = Some o' ->
+  go_meta o' = last_meta (flat_map (ret_entry thr) (st_matching sel st)).
+Proof. exact retention_meta. Qed.
+Print Assumptions C11_retention_meta.
+
+Theorem C11_retention_meta_same : forall thr sel from until st o o' m0 ks, segs_sorted (st_segs st) ->
+  st_matching sel st = m0 ++ [ks] -> ret_del thr (snd ks) = false ->
+  st_get sel from until st = Some o -> st_get sel from until (st_retention thr st) = Some o' ->
+  go_meta o' = go_meta o.
+Proof. exact retention_meta_same. Qed.
+Print Assumptions C11_retention_meta_same.
+
+Definition exm_s1 : sid := {| sid_key := [97;123;120;61;49;125]%N; sid_app := [97]%N; sid_tags := [([120], [49])]%N |}.
+Definition exm_s2 : sid := {| sid_key := [97;123;120;61;50;125]%N; sid_app := [97]%N; sid_tags := [([120], [50])]%N |}.
+Definition exm_sel : sid := {| sid_key := [97;123;125]%N; sid_app := [97]%N; sid_tags := [] |}.
+Definition exm_put (s : sid) (f : Z) (spy : bytes) : put_input :=
+  {| pi_sid := s; pi_from := f; pi_until := f + 10; pi_tree := t_insert [122]%N 3%N t_empty;
+     pi_meta := {| m_spy := spy; m_rate := 100%N; m_units := []; m_agg := [115;117;109]%N |} |}.
+(* series x=2 (the last in key order) only has data before the threshold; series x=1 after it *)
+Definition exm_st : st_state := st_after [exm_put exm_s2 1600000000 [50]%N; exm_put exm_s1 1600001000 [49]%N].
+
+Theorem C11_retention_meta_refuted :
+  exists st thr sel from until o o',
+    segs_sorted (st_segs st) /\ unix_to_slot thr <= fst (s_normalize_unix (from, until)) /\
+    has_average (st_matching sel st) = false /\
+    st_get sel from until st = Some o /\ st_get sel from until (st_retention thr st) = Some o' /\
+    go_tree o' = go_tree o /\ go_meta o' <> go_meta o.
+Proof.
+  exists exm_st, 1600000500, exm_sel, 1600001000, 1600001010. eexists. eexists.
+  split; [apply sorted_after|]. split; [vm_compute; discriminate|]. split; [vm_compute; reflexivity|].
+  split; [vm_compute; reflexivity|]. split; [vm_compute; reflexivity|]. split; [reflexivity|]. vm_compute. discriminate.
+Qed.
+Print Assumptions C11_retention_meta_refuted.
+
 (* the invariants of the three retention clauses hold after EVERY history of ingests (valid range, tree as
    built by Insert), queries, deletes and retention passes, with retention on or off *)
 Theorem C11_invariants_run : forall K rt ops, Forall (good_op K) ops -> forall st, st_good K st ->
